@@ -213,6 +213,38 @@ func cmdReplay(args []string) int {
 // compiling) is applied to a scratch copy of /repo and the property's check must report a violation whose obligation
 // name contains the expected substring. Exit 0 iff every mutant is caught (mutants listed in selftest/known_missed.txt
 // are reported but do not fail the run).
+// selftestFor: the must-fail mutants of one property (thorough tier): how many the check catches. A miss is a
+// weakness of the check, not a violation of the property: it is reported in the evidence and on stdout as a NOTE.
+func selftestFor(prop string) (lines []string, caught, total int) {
+	dir := filepath.Join(verifDir, "selftest", "mutants")
+	ents, _ := os.ReadDir(dir)
+	for _, en := range ents {
+		if !strings.HasSuffix(en.Name(), ".json") {
+			continue
+		}
+		name := strings.TrimSuffix(en.Name(), ".json")
+		var meta struct{ Property, Expect string }
+		data, _ := os.ReadFile(filepath.Join(dir, en.Name()))
+		_ = json.Unmarshal(data, &meta)
+		if meta.Property != prop {
+			continue
+		}
+		c := exec.Command(filepath.Join(verifDir, "tools", "mutcheck.sh"), filepath.Join(dir, name+".diff"), prop)
+		out, _ := c.CombinedOutput()
+		total++
+		switch {
+		case strings.Contains(string(out), "PATCH-FAILED"):
+			lines = append(lines, "mutant "+name+": stale (no longer applies)")
+		case strings.Contains(string(out), "\nVIOLATION ") || strings.HasPrefix(string(out), "VIOLATION "):
+			caught++
+			lines = append(lines, "mutant "+name+": caught")
+		default:
+			lines = append(lines, "mutant "+name+": MISSED")
+		}
+	}
+	return
+}
+
 func cmdSelftest(args []string) int {
 	dir := filepath.Join(verifDir, "selftest", "mutants")
 	ents, _ := os.ReadDir(dir)
